@@ -138,9 +138,46 @@ def check(ctx):
   r4(ctx)
   r5(ctx)
   r6(ctx)
+  load_write_repairs(ctx)
   from . import c04
   ctx.rule('C04.R2', 'shared with C04: the balancer releases the member (load decrement, heap repair) before it forwards the response upward -- forwarding can re-enter the balancer')
   c04.r1_r2(ctx)
+
+
+def load_write_repairs(ctx):
+  """C03.R3 for every function of the balancers (not only the three known sites): the first heap operation after a change of
+  <node>.load addresses that node's own slot -- <node>.index, or slot 1 when <node> is the root on that path."""
+  prog = ctx.prog
+  why = ('a node whose load changed must be sifted from ITS slot: a repair started at another slot (e.g. the root, copied from the selection code where the node is the root) '
+         'leaves a penalised / loaded node above lighter children, and dispatch no longer reaches the least-loaded member')
+  n_sites = 0
+  for f in prog.all_funcs:
+    if f.module.rel not in (H, 'scales/loadbalancer/aperture.py') or f.name in ('__init__', '__lt__'):
+      continue
+    if not any(isinstance(st, ast.AugAssign) and isinstance(st.target, ast.Attribute) and st.target.attr == 'load' for st in ast.walk(f.node)):
+      continue
+    for ev, ex in enum_paths(ctx, f):
+      if ex[0] == 'raise':
+        continue
+      hcs = heap_calls(ev)
+      for i, e in enumerate(ev):
+        if not (e.kind == 'stmt' and isinstance(e.node, ast.AugAssign) and isinstance(e.node.target, ast.Attribute) and e.node.target.attr == 'load'):
+          continue
+        n_sites += 1
+        node_txt = U(e.node.target.value)
+        node_res = resolved_text(ev, i, e.node.target.value)
+        nxt = [h for h in hcs if h[0] > i]
+        if not nxt:
+          # clamp / bookkeeping writes that no heap order depends on are followed by another load write before any repair; a path that
+          # ends without any heap call after its last load write is judged by the site rules of R3
+          continue
+        _, op, args = nxt[0]
+        slot_args = args[1:]
+        own = any(('%s.index' % node_txt) in a or ('%s.index' % node_res) in a for a in slot_args)
+        root = node_res.replace(' ', '') == 'self._heap[1]' and '1' in slot_args
+        ctx.ob('C03.R3', f, 'the heap repair after a load change starts at the slot of the node whose load changed', own or root,
+               '%s.load changes, then Heap.%s(%s): the repair does not address %s.index' % (node_txt, op, ', '.join(args), node_txt), why)
+  ctx.floor('C03.R3', 'load writes followed on their path', n_sites, 3)
 
 
 def r1(ctx):
